@@ -69,6 +69,8 @@ def run(an: Analysis, rep):
     rep.run(rejection_paths_rule, an, SharedRules(rep, "R14.R", "every place where from_code can stop with an exception is one confirmed by reading (shared with C02's R02.R)"), "R02.R", ["from_code"],
             _c02r.DECODER_REJECTIONS, "from_code")
     rep.run(decoded_placement_rule, an, rep)
+    from rules.common import assert_guard_rule as _agr14
+    rep.run(_agr14, an, rep, "R14.A", ["from_code", "iter", "all_code_data"])
     rep.run(r14f, an, rep)
     tg = an.tg
     ci = an.prog.cls(ROOT)
